@@ -645,6 +645,18 @@ def run_big_map(ctx, i, j):
                     got = sorted(norm(x) for x in names())
                     if got != sorted(norm(kk) for kk in keys[:c]):
                         raise Mismatch('bigmap:%s:enumeration' % kind, 'with %d entries the keys enumerate as %d names (%d distinct)' % (c, len(got), len(set(got))))
+            # the entry added last is removed, then an entry under a new key is added: it is found, enumerated (once)
+            # and survives a copy like any other
+            last = keys[-1]
+            fresh = ('%sfresh' % stem) if kind == 'table' else ('_%sfresh' % stem)
+            if rem(last) != CIF_OK or put(fresh, v1) != CIF_OK:
+                raise Mismatch('bigmap:%s:remove-last-then-add' % kind, 'removing the entry added last, then adding one under a new key, failed')
+            got = sorted(norm(x) for x in names())
+            if got != sorted([norm(kk) for kk in keys[:-1]] + [norm(fresh)]) or get(fresh)[0] != CIF_OK:
+                raise Mismatch('bigmap:%s:enumeration-after-remove-last' % kind, 'after removing the entry added last and adding %r the map enumerates %d names (%s the new one) and finds it: %s'
+                               % (fresh, len(got), 'with' if norm(fresh) in got else 'WITHOUT', get(fresh)[0] == CIF_OK))
+            if rem(fresh) != CIF_OK or put(last, v1) != CIF_OK:
+                raise Mismatch('bigmap:%s:restore' % kind, 'restoring the map failed')
             if kind == 'table':
                 rc, cl = L.value_clone(m)
                 objs.append(('value', cl))
